@@ -36,6 +36,10 @@ def spell_char(c, quote):
         return '\\x41'
     if c == 0:
         return '\\0'
+    if c == 200:
+        return '\\xc8'
+    if c > 255:
+        return '\\u%04x' % c
     if c == 34:
         return '\\"' if quote == '"' else '"'
     if c == 39:
@@ -87,6 +91,9 @@ def evaluate(args):
     case, line = build(e, idx)
     obs = runner.run_case(case)
     want = bytes(e['b']) + b'\xee'
+    wide_char = e['s']['kind'] == 'str' and any(c > 255 for c in e['s']['chars'])
+    if obs['status'] != 'ok' and wide_char:
+        return None      # a character beyond 8 bits may be rejected; if accepted it must still emit exactly one byte
     if obs['status'] != 'ok':
         return {'m': f'"{line}" rejected: {(obs.get("msg") or "")[:140]}', 'case': case}
     if obs['image'] != want:
@@ -106,7 +113,7 @@ def run(chk):
                 'TLC checks LengthIsWidthTimesCount, HighBytesIrrelevant, NegationIsComplement, ZeroUntilInclusive. Each '
                 'scenario is spelled (decimal / $hex / 0x / unary minus / parenthesised / forward-label-relative expressions in '
                 'rotation) and assembled; the image must be the described bytes followed by the next line. Non-trivial = all.')
-    chk.assumptions = ['characters are spelled by harness/checks/c11.spell_char; the specification works on character codes',
+    chk.assumptions = ['a character beyond U+00FF (\\u0141) may be rejected; if accepted it emits one byte, its low byte', 'characters are spelled by harness/checks/c11.spell_char; the specification works on character codes',
                        'strings contain printable ASCII and the listed escapes only']
     res = tlc.run_tlc('MC_Data', 'SPECIFICATION Spec\nCONSTANTS\n  Scenarios <- %s\n' % ('ScQuick' if quick else 'ScThorough')
                       + ''.join(f'INVARIANT {i}\n' for i in INV), workers=16, timeout=3000)
